@@ -193,7 +193,11 @@ PResync(i) == par[i].live /\ Step([op |-> "presync", i |-> i], Ev("resync", par[
 \* real tombstone: the object is deleted during a watch gap, the relist reports it
 PRelist(i) == /\ Real /\ par[i].live /\ par[i].fins = <<>>
               /\ Step([op |-> "prelist", i |-> i], Ev("tombstone", par[i], Dead), [par EXCEPT ![i] = [par[i] EXCEPT !.live = FALSE]], ch, rel, FALSE)
+\* a watch gap during which something else of the resource disappears: the relist replays the
+\* cached objects to the handlers as updates with an unchanged resourceVersion (real resync replay)
+PGap(i) == Real /\ par[i].live /\ Step([op |-> "pgap", i |-> i], Ev("resync", par[i], par[i]), par, ch, rel, FALSE)
 ParentEvent(i) ==
+  \/ PGap(i)
   \/ PCreate(i) \/ (\E w \in {"relabel", "status", "spec", "ann"} : PUpdate(i, w))
   \/ PDelete(i) \/ PDropFin(i) \/ PTomb(i) \/ PResync(i) \/ PRelist(i)
 \* parent events that change what the caches hold (used as set-up before child / related events)
@@ -227,7 +231,8 @@ CDropFin ==
 CTomb   == ch.live /\ Step([op |-> "ctomb"], Ev("tombstone", ch, Dead), par, ch, rel, FALSE)
 CResync == ch.live /\ Step([op |-> "cresync"], Ev("resync", ch, ch), par, ch, rel, FALSE)
 CRelist == Real /\ ch.live /\ ch.fins = <<>> /\ Step([op |-> "crelist"], Ev("tombstone", ch, Dead), par, [ch EXCEPT !.live = FALSE], rel, FALSE)
-ChildEvent == (\E r \in CRoles : CCreate(r) \/ CSet(r)) \/ CTouch \/ CDelete \/ CDropFin \/ CTomb \/ CResync \/ CRelist
+CGap    == Real /\ ch.live /\ Step([op |-> "cgap"], Ev("resync", ch, ch), par, ch, rel, FALSE)
+ChildEvent == CGap \/ (\E r \in CRoles : CCreate(r) \/ CSet(r)) \/ CTouch \/ CDelete \/ CDropFin \/ CTomb \/ CResync \/ CRelist
 
 \* -- related-object events
 RCreate(v) == ~rel.live /\ LET nw == MkRel(v, rvc + 1) IN Step([op |-> "rcreate", v |-> v], Ev("add", Dead, nw), par, ch, nw, FALSE)
